@@ -25,6 +25,7 @@ func init() {
 			{"C19.size-floor", "size - k only behind size >= k", 4, c19SizeFloor},
 			{"C19.slice-guards", "fixed-offset slicing of input bytes only behind a sufficient length", 5, c19SliceGuards},
 			{"C19.index-guards", "constant-index access to input-dependent slices and strings only behind a sufficient length", 1, c19IndexGuards},
+			{"C19.search-bounds", "a bound taken from an Index/LastIndex search is used only where -1 was excluded", 1, c19SearchBounds},
 			{"C19.signed-length", "an input value converted to a signed length (io.CopyN, io.LimitReader) is first bounded by MaxInt64", 2, c19SignedLength},
 			{"C19.tainted-loops", "loops bounded by an input value consume input each iteration", 1, c19TaintedLoops},
 			{"C19.exact-reads", "fixed-size fields are read completely (no direct Read in the decoding primitives; byte counts used)", 1, func(c *Ctx) { c.exactReads() }},
@@ -737,5 +738,132 @@ func c19IndexGuards(c *Ctx) {
 	if n == 0 {
 		c.info("index-guards", token.NoPos, "no constant-index access to a slice or string in the decoders")
 		c.ok("index-guards", token.NoPos, "no constant-index access to a slice or string of input-dependent length in the decoders")
+	}
+}
+
+// c19SearchBounds: strings.Index, bytes.LastIndexByte and their relatives answer -1 when the
+// thing looked for is absent.  A slice bound or index taken from such a result is usable only
+// behind a comparison of that result that excludes -1 (>= 0, != -1, > k ...): in the decoders
+// the absence is an input the peer or the archive chooses.
+func c19SearchBounds(c *Ctx) {
+	inputFiles := map[string]bool{"format.go": true, "reader.go": true, "protocol.go": true, "protocolserver.go": true, "index.go": true, "archive.go": true, "types.go": true}
+	isSearch := func(name string) bool {
+		for _, p := range []string{"strings.Index", "strings.LastIndex", "bytes.Index", "bytes.LastIndex"} {
+			if strings.HasPrefix(name, p) {
+				return true
+			}
+		}
+		return false
+	}
+	n := 0
+	for _, f := range c.libFuncs() {
+		file := c.Fset.Position(f.Pos()).Filename
+		if !inputFiles[file[strings.LastIndex(file, "/")+1:]] {
+			continue
+		}
+		instrs(f, func(_ *ssa.BasicBlock, _ int, ins ssa.Instruction) {
+			var bounds []ssa.Value
+			switch x := ins.(type) {
+			case *ssa.Slice:
+				bounds = []ssa.Value{x.Low, x.High}
+			case *ssa.IndexAddr:
+				bounds = []ssa.Value{x.Index}
+			case *ssa.Index:
+				bounds = []ssa.Value{x.Index}
+			default:
+				return
+			}
+			for _, bnd := range bounds {
+				if bnd == nil {
+					continue
+				}
+				// the search result inside the bound expression (idx, idx+1, ...)
+				var search *ssa.Call
+				var walk func(v ssa.Value, d int)
+				walk = func(v ssa.Value, d int) {
+					if d > 4 || search != nil {
+						return
+					}
+					switch y := v.(type) {
+					case *ssa.Call:
+						if isSearch(callee(y)) {
+							search = y
+						}
+					case *ssa.BinOp:
+						walk(y.X, d+1)
+						walk(y.Y, d+1)
+					case *ssa.Convert:
+						walk(y.X, d+1)
+					case *ssa.Phi:
+						for _, e := range y.Edges {
+							walk(e, d+1)
+						}
+					}
+				}
+				walk(bnd, 0)
+				if search == nil {
+					continue
+				}
+				n++
+				key := fmt.Sprintf("%s:bound-from-%s", fnKey(f), callee(search))
+				// behind a comparison of the search result that excludes -1
+				okG, _ := guarded(f, ins, func(iff *ssa.If) (bool, bool) {
+					cm, truth, ok := cmpOf(iff.Cond)
+					if !ok {
+						return false, false
+					}
+					var k *ssa.Const
+					var swapped bool
+					switch {
+					case cm.x == ssa.Value(search):
+						k, _ = cm.y.(*ssa.Const)
+					case cm.y == ssa.Value(search):
+						k, _ = cm.x.(*ssa.Const)
+						swapped = true
+					}
+					if k == nil || k.Value == nil {
+						return false, false
+					}
+					kv := constInt64(k)
+					op := cm.op
+					if swapped { // k op idx  ->  idx op' k
+						switch op {
+						case token.LSS:
+							op = token.GTR
+						case token.LEQ:
+							op = token.GEQ
+						case token.GTR:
+							op = token.LSS
+						case token.GEQ:
+							op = token.LEQ
+						}
+					}
+					// which edge implies idx >= 0 ?
+					var holdsMeansNonNeg, failsMeansNonNeg bool
+					switch op {
+					case token.EQL:
+						holdsMeansNonNeg, failsMeansNonNeg = kv >= 0, kv == -1
+					case token.NEQ:
+						holdsMeansNonNeg, failsMeansNonNeg = kv == -1, kv >= 0
+					case token.GEQ:
+						holdsMeansNonNeg = kv >= 0
+					case token.GTR:
+						holdsMeansNonNeg = kv >= -1
+					case token.LSS:
+						failsMeansNonNeg = kv >= 0 && kv <= 0 // !(idx < 0)
+					case token.LEQ:
+						failsMeansNonNeg = kv == -1 // !(idx <= -1)
+					}
+					onTrue := (holdsMeansNonNeg && truth) || (failsMeansNonNeg && !truth)
+					onFalse := (holdsMeansNonNeg && !truth) || (failsMeansNonNeg && truth)
+					return onTrue, onFalse
+				})
+				c.verdict(okG, key, ins.Pos(), "the search result is used as a bound only where it was found not to be -1",
+					"a slice bound or index is taken from a search result without excluding -1: input in which the byte or substring is absent panics with 'slice bounds out of range'")
+			}
+		})
+	}
+	if n == 0 {
+		c.bad("search-bounds", token.NoPos, "no bound taken from a search result found in the decoders")
 	}
 }
